@@ -713,8 +713,15 @@ namespace awkward {
         }
         if (dtype == util::dtype::datetime64) {
           time_t time = (int64_t)(kernel::NumpyArray_getitem_at0(ptr_lib, ptr2) * scale);
-          strftime(outbuf, 30, "%Y-%m-%dT%H:%M:%S", gmtime(&time));
-          out << outbuf;
+          struct tm* broken_down = gmtime(&time);
+          if (broken_down == nullptr) {
+            // not representable as a calendar date (e.g. the identity of a max reduction)
+            out << (int64_t)time << "s";
+          }
+          else {
+            strftime(outbuf, 30, "%Y-%m-%dT%H:%M:%S", broken_down);
+            out << outbuf;
+          }
         }
         else if (dtype == util::dtype::timedelta64) {
           out << (int64_t)kernel::NumpyArray_getitem_at0(ptr_lib, ptr2);
@@ -734,8 +741,15 @@ namespace awkward {
         }
         if (dtype == util::dtype::datetime64) {
           time_t time = (int64_t)(kernel::NumpyArray_getitem_at0(ptr_lib, ptr2) * scale);
-          strftime(outbuf, 30, "%Y-%m-%dT%H:%M:%S", gmtime(&time));
-          out << outbuf;
+          struct tm* broken_down = gmtime(&time);
+          if (broken_down == nullptr) {
+            // not representable as a calendar date (e.g. the identity of a max reduction)
+            out << (int64_t)time << "s";
+          }
+          else {
+            strftime(outbuf, 30, "%Y-%m-%dT%H:%M:%S", broken_down);
+            out << outbuf;
+          }
         }
         else if (dtype == util::dtype::timedelta64) {
           out << (int64_t)kernel::NumpyArray_getitem_at0(ptr_lib, ptr2);
@@ -754,8 +768,15 @@ namespace awkward {
         }
         if (dtype == util::dtype::datetime64) {
           time_t time = (int64_t)(kernel::NumpyArray_getitem_at0(ptr_lib, ptr2) * scale);
-          strftime(outbuf, 30, "%Y-%m-%dT%H:%M:%S", gmtime(&time));
-          out << outbuf;
+          struct tm* broken_down = gmtime(&time);
+          if (broken_down == nullptr) {
+            // not representable as a calendar date (e.g. the identity of a max reduction)
+            out << (int64_t)time << "s";
+          }
+          else {
+            strftime(outbuf, 30, "%Y-%m-%dT%H:%M:%S", broken_down);
+            out << outbuf;
+          }
         }
         else if (dtype == util::dtype::timedelta64) {
           out << (int64_t)kernel::NumpyArray_getitem_at0(ptr_lib, ptr2);
